@@ -492,7 +492,9 @@ type rawCase struct {
 func genHeaderCases(rng *rand.Rand, tag string, ecs bool) []rawCase {
 	var out []rawCase
 	id := func() uint16 { return uint16(1 + rng.UintN(65535)) }
-	name := func(k string) string { return mixCase(rng, fmt.Sprintf("%s-%s-%d.hdr.test.", k, tag, rng.UintN(1<<30))) }
+	name := func(k string) string {
+		return mixCase(rng, fmt.Sprintf("%s-%s-%d.hdr.test.", k, tag, rng.UintN(1<<30)))
+	}
 	rd := func() uint16 { return uint16(rng.UintN(2)) << 8 }
 
 	// packets that are themselves responses: never answered
